@@ -264,6 +264,25 @@ def main():
             again = dict(it["script"][k_inst], reuse=1)
             calls2 = [dict(o_, inst=2) for o_ in it["script"][k_inst + 1:] if o_["op"] == "call"]
             items.append(dict(it, id=it["id"] + "r", script=it["script"] + [{"op": "free", "inst": 1}, again] + calls2))
+    # numbers of globals, data segments and element segments around powers of two: every one of them initialised
+    for cnt in ((0, 1, 2, 16, 17, 33, 64, 65, 129) if tier == "quick" else (0, 1, 2, 15, 16, 17, 31, 32, 33, 63, 64, 65, 127, 128, 129, 255, 256, 257)):
+        n1 = max(cnt, 1)
+        tys = [{"p": [], "r": ["i64"]}, {"p": ["i32"], "r": ["i64"]}]
+        fns = [{"type": 0, "locals": [], "body": [["i64.const", b64(1000 + k)], ["end"]]} for k in range(n1)]
+        probes = sorted({0, n1 // 2, n1 - 1})
+        getters = [{"type": 0, "locals": [], "body": [["global.get", k], ["end"]]} for k in probes if k < cnt]
+        fns.append({"type": 1, "locals": [], "body": [["local.get", 0], ["call_indirect", 0, 0], ["end"]]})
+        m = {"types": tys, "funcs": fns + getters,
+             "globals": [{"t": "i64", "mut": bool(k % 2), "init": ["i64.const", b64(7 * k + 1)]} for k in range(cnt)],
+             "memory": {"min": 1, "max": 1}, "table": {"min": n1, "max": n1},
+             "data": [{"mode": "active", "offset": ["i32.const", b32(16 + 3 * k)], "bytes": [1 + k % 250, 2 + k % 250, 3 + k % 250]} for k in range(cnt)],
+             "elems": [{"offset": ["i32.const", b32(k)], "funcs": [k]} for k in range(n1)],
+             "exports": [{"name": "icall", "kind": "func", "idx": n1}, {"name": "memory", "kind": "memory", "idx": 0}] +
+                        [{"name": "get%d" % k, "kind": "func", "idx": n1 + 1 + j} for j, k in enumerate([p for p in probes if p < cnt])]}
+        script = [{"op": "instantiate", "binds": {"mem": 0, "table": 0, "globals": []}}]
+        script += [{"op": "call", "inst": 1, "export": "icall", "args": [arg("i32", k)]} for k in probes]
+        script += [{"op": "call", "inst": 1, "export": "get%d" % k, "args": []} for k in probes if k < cnt]
+        items.append({"id": "cnt%d" % cnt, "module": m, "script": script})
     builds = [{"name": "gcc-O1", "cc": "gcc", "cflags": ("-O1",)},
               {"name": "gcc-O1-gnu-ld", "cc": "gcc", "cflags": ("-O1",), "w2c2_opts": ("-m", "-d", "gnu-ld")}]
     if tier != "quick":
